@@ -265,6 +265,8 @@ class StmtMixin:
             h2.fields[attr] = v
             st.put(base, h2)
             return
+        if isinstance(base, Ref) and type(st.get(base)).__name__ == "HBO":
+            return self.bo_setattr(base, attr, v, st, fr, node)
         raise Unsupported("attribute store on %s" % kind_of(base), node)
 
     def store_subscript(self, base, idx, v, st, fr, node, valnode):
